@@ -251,14 +251,16 @@ func build(d ref.DT, shape []int, vals []interface{}, layout string) (*Built, er
 		if reflect.TypeOf(b.Root).Kind() != reflect.Slice { // scalar-equivalent: Data() returns the value
 			return nil, ErrNA
 		}
-		// the copy's own storage order: row-major (or column-major when the copy is column-major)
-		if m.DataOrder().IsColMajor() {
-			b.View = ref.RootF(m.Shape())
-		} else {
-			b.View = ref.RootC(m.Shape())
+		// the copy's cell map is read from its own access pattern over its own storage (a Clone of a view keeps
+		// the view's strides over a copy of the window) and validated by reading the values back
+		b.View = ref.View{Shape: ref.CopyInts(m.Shape())}
+		cells, ok := b.APCells()
+		if !ok || !ref.EqInts(m.Shape(), shape) {
+			return nil, ErrNA
 		}
-		if len(b.View.Cell) != ref.SliceLen(b.Root) {
-			return nil, fmt.Errorf("atlas: %s of %v: copy has %d storage cells for %d elements", layout, shape, ref.SliceLen(b.Root), len(b.View.Cell))
+		b.View.Cell = cells
+		if err := b.VerifyLogical(); err != nil {
+			return nil, err
 		}
 		return b, nil
 	default:
